@@ -294,7 +294,7 @@ func TestVerifC12Meta(t *testing.T) {
 			if len(obs.rows) > 0 {
 				rows = cList(obs.rows)
 			}
-			coq := cTuple(build, opst, cBool(killed), cBool(err != nil), rows)
+			coq := cTuple(build, "(@nil nat)", opst, cBool(killed), cBool(err != nil), rows)
 			vfCase(coq, vfKey(coq), kind != "ref", []string{"mergeMeta", "run=" + kind, fmt.Sprintf("old=%d/meta=%d", nold, len(oldmeta))},
 				map[string]any{"scenario": sc, "run": "mergeMeta/" + kind, "k": k, "ops": kinds, "view": obs.rows, "err": fmt.Sprint(err)})
 		}
